@@ -612,3 +612,46 @@ Proof. reflexivity. Qed.
 Theorem standardize_same_occurrences ty t x :
   occ ty (standardize_entry ty (TTime t)) x <-> occ ty (TTime t) x.
 Proof. destruct ty; cbn; try tauto; unfold occ_minutely, occ_hourly; cbn; tauto. Qed.
+
+(* ---- a rejected creation is always a SchedulerError (C13): never a TypeError ------------------- *)
+Theorem job_create_err c tz now e :
+  cfg_valid c -> c_timing c <> [] -> job_create c tz now = Err e -> e = SchedulerError.
+Proof.
+  intros Hv Hne H. unfold job_create in H.
+  remember (c_type c) as ty eqn:Hty0. remember (standardize_timing ty (c_timing c)) as tgs eqn:Htgs0.
+  destruct (negb (sane_timing ty tgs)) eqn:E1; [inversion H; reflexivity|]. apply negb_false_true in E1.
+  destruct (negb (timing_tz_ok ty tgs tz)) eqn:E2; [inversion H; reflexivity|]. apply negb_false_true in E2.
+  destruct (negb (dup_ok ty tgs tz)) eqn:E3; [inversion H; reflexivity|].
+  apply bind_err in H as [H|(start & Hstart & H)]; [apply set_start_err in H; exact H|].
+  apply set_start_ok in Hstart as (Hs1 & Hs2 & Hs3).
+  unfold sane_timing in E1. apply andb_prop in E1 as [E1 E1']. apply forallb_Forall in E1.
+  assert (Hvalid : Forall entry_valid tgs).
+  { rewrite Htgs0. unfold standardize_timing. rewrite Forall_map. eapply Forall_impl; [|exact Hv].
+    intros a Ha. apply standardize_valid. exact Ha. }
+  assert (Haw : ty <> CYCLIC -> Forall (fun tg => entry_aware' tg = tz_aware tz) tgs).
+  { intros Hty. unfold timing_tz_ok in E2. destruct ty; try congruence;
+    apply forallb_Forall in E2; (eapply Forall_impl; [|exact E2]); intros a Ha; cbn in Ha;
+    rewrite <- entry_aware_eq; unfold tz_aware; destruct (entry_aware a), tz; cbn in Ha; congruence. }
+  (* timers are always created *)
+  assert (Htot : exists tms, mapM (fun tg => timer_init ty tg start (c_skip c)) tgs = Ok tms).
+  { apply mapM_total. intros tg Hin. rewrite Forall_forall in E1, Hvalid.
+    destruct (timer_init_wf ty tg start (c_skip c) (tz_aware tz) (E1 tg Hin) (Hvalid tg Hin) Hs2) as (tm & Htm & _).
+    - intros Hty. specialize (Haw Hty). rewrite Forall_forall in Haw. apply Haw. exact Hin.
+    - eauto. }
+  destruct Htot as (tms & Htms). rewrite Htms in H. cbn [bind] in H.
+  pose proof (mapM_ok _ _ _ Htms) as Hf2.
+  pose proof (timers_created ty (c_skip c) (tz_aware tz) start tgs tms E1 Hvalid Hs2 Haw Hf2) as Hall.
+  assert (Hwf : Forall (timer_wf ty (c_skip c) (tz_aware tz)) tms).
+  { clear -Hall. induction Hall as [|? ? ? ? Hh ? IH]; constructor; [apply Hh|assumption]. }
+  assert (Hne' : tms <> []).
+  { intros ->. inversion Hf2 as [Hnil|]. rewrite Htgs0 in Hnil. unfold standardize_timing in Hnil.
+    destruct (c_timing c); [congruence|discriminate]. }
+  rewrite (pending_index_total _ _ _ _ Hne' Hwf) in H. cbn [bind] in H.
+  set (p := argmin (map utc (map jt_next tms))) in H.
+  assert (Hplt : (p < length tms)%nat).
+  { subst p. pose proof (argmin_lt (map utc (map jt_next tms))) as Hl. rewrite !map_length in Hl. apply Hl.
+    destruct tms; [congruence|discriminate]. }
+  pose proof (nth_wf _ _ _ _ _ Hwf Hplt) as (_ & _ & Hpaw & _).
+  rewrite (past_stop_same _ _ (tz_aware tz)) in H; [|exact Hpaw|intros x Hx; apply Hs3; exact Hx].
+  cbn [bind] in H. discriminate.
+Qed.
